@@ -92,17 +92,18 @@ func vC12Unary[T vNum]() {
 	}
 	vAssert(rd.Dtype() == a.Dtype(), "result-dtype")
 	got := vSnapshot[T](rd)
+	kfReuseOrder := (mode == "reuse" || mode == "incr") && ((vCfgStr("ld") == "F") != (vCfgStr("la") == "F"))
 	for k := 0; k < n; k++ {
 		if mode == "incr" {
 			switch op {
 			case "Neg":
-				vAssert(vSameBits(got[k], dw[k]+(-aw[k])), "incr-value")
+				vAssertKF(vSameBits(got[k], dw[k]+(-aw[k])), "incr-value", "KF-C16-reuse-order", kfReuseOrder)
 			case "Square":
-				vAssert(vSameBits(got[k], dw[k]+aw[k]*aw[k]), "incr-value")
+				vAssertKF(vSameBits(got[k], dw[k]+aw[k]*aw[k]), "incr-value", "KF-C16-reuse-order", kfReuseOrder)
 			}
 			continue
 		}
-		vAssert(vUnMatch(op, got[k], aw[k], lo, hi), "value")
+		vAssertKF(vUnMatch(op, got[k], aw[k], lo, hi), "value", "KF-C16-reuse-order", kfReuseOrder)
 	}
 	if rd != a {
 		vC06Unchanged(a, aw, "operand-unchanged")
